@@ -409,6 +409,21 @@ fn run_case<C: Suite>(c: &Case) -> Outcome {
                                 if vk.verify(m, &sig).is_err() {
                                     o.fail(format!("{tag}/reference-signature-rejected-by-library"), format!("key #{k} msg #{}", k % 11));
                                 }
+                                // the batch entry point must accept them too, also when the same item is queued twice
+                                let mut bv = fc::batch::Verifier::<C>::new();
+                                let mut ok_items = true;
+                                for _ in 0..2 {
+                                    match fc::batch::Item::<C>::new(*vk, sig, m) {
+                                        Ok(it) => bv.queue(it),
+                                        Err(_) => ok_items = false,
+                                    }
+                                }
+                                let mut rng = ScriptedRng::ctr(format!("{seed}.c02batch{k}"));
+                                if !ok_items || bv.verify(&mut rng).is_err() {
+                                    o.fail(format!("{tag}/reference-signature-rejected-by-batch-verification"), format!("key #{k}: the reference's signature, queued twice, is rejected by batch verification"));
+                                } else {
+                                    o.count("reference_signatures_batch_verified", 1);
+                                }
                             }
                             Err(e) => o.fail(format!("{tag}/reference-signature-undecodable"), format!("key #{k}: {e:?}")),
                         }
@@ -431,6 +446,28 @@ fn run_case<C: Suite>(c: &Case) -> Outcome {
                 let m = message(3);
                 let (nonces, comms) = commit_all::<C>(&grp.kps, &s, &format!("{seed}:extras:{n}"));
                 let pkg = SigningPackage::<C>::new(comms.clone(), &m);
+                // every aggregation entry point returns the same bytes for honest shares
+                {
+                    let mut shares = BTreeMap::new();
+                    for id in &s {
+                        if let Ok(sh) = C::w_sign(&pkg, &nonces[id], &grp.kps[id]) {
+                            shares.insert(*id, sh);
+                        }
+                    }
+                    match C::w_aggregate(&pkg, &shares, &grp.pkp).ok().and_then(|x| x.serialize().ok()) {
+                        Some(base) => {
+                            for (mn, md) in [("Disabled", frost_core::CheaterDetection::Disabled), ("FirstCheater", frost_core::CheaterDetection::FirstCheater), ("AllCheaters", frost_core::CheaterDetection::AllCheaters)] {
+                                o.eval(true);
+                                match C::w_aggregate_custom(&pkg, &shares, &grp.pkp, md).ok().and_then(|x| x.serialize().ok()) {
+                                    Some(b) if b == base => o.count("aggregation_entry_points_agree", 1),
+                                    Some(_) => o.fail(format!("{tag}/aggregate-modes-differ"), format!("n={n} t={t}: aggregate_custom({mn}) returns other bytes than aggregate()")),
+                                    None => o.fail(format!("{tag}/aggregate-custom-failed"), format!("n={n} t={t}: aggregate_custom({mn}) fails on honest shares that aggregate() accepts")),
+                                }
+                            }
+                        }
+                        None => o.fail(format!("{tag}/aggregate-failed"), format!("n={n} t={t}")),
+                    }
+                }
                 let mut rng = ScriptedRng::ctr(format!("{seed}:extras-rr:{n}"));
                 match RandomizedParams::<C>::new_from_commitments(grp.pkp.verifying_key(), &comms, &mut rng) {
                     Ok((params, sd)) => {
@@ -452,6 +489,28 @@ fn run_case<C: Suite>(c: &Case) -> Outcome {
                         }
                     };
                     let s: Vec<_> = grp.ids.iter().take(2).copied().collect();
+                    {
+                        // plain (untweaked) session on this key parity: all aggregation entry points agree
+                        let m = message(4);
+                        let (nonces, comms) = commit_all::<C>(&grp.kps, &s, &format!("{seed}:extras-tr-plain:{key_odd}"));
+                        let pkg = SigningPackage::<C>::new(comms, &m);
+                        let mut shares = BTreeMap::new();
+                        for id in &s {
+                            if let Ok(sh) = C::w_sign(&pkg, &nonces[id], &grp.kps[id]) {
+                                shares.insert(*id, sh);
+                            }
+                        }
+                        let base = C::w_aggregate(&pkg, &shares, &grp.pkp).ok().and_then(|x| x.serialize().ok());
+                        for (mn, md) in [("Disabled", frost_core::CheaterDetection::Disabled), ("FirstCheater", frost_core::CheaterDetection::FirstCheater), ("AllCheaters", frost_core::CheaterDetection::AllCheaters)] {
+                            o.eval(true);
+                            let b = C::w_aggregate_custom(&pkg, &shares, &grp.pkp, md).ok().and_then(|x| x.serialize().ok());
+                            if base.is_none() || b != base {
+                                o.fail(format!("{tag}/aggregate-modes-differ"), format!("Taproot key_odd={key_odd}: aggregate_custom({mn}) and aggregate() disagree on honest shares (ok={} / ok={})", b.is_some(), base.is_some()));
+                            } else {
+                                o.count("aggregation_entry_points_agree", 1);
+                            }
+                        }
+                    }
                     for (rn, root) in [("none", None), ("empty", Some(vec![])), ("32 bytes", Some(vec![0x11u8; 32])), ("100 bytes", Some(vec![0x22u8; 100]))] {
                         let m = message(4);
                         let (nonces, comms) = commit_all::<C>(&grp.kps, &s, &format!("{seed}:extras-tr:{key_odd}:{rn}"));
